@@ -501,10 +501,21 @@ func runConnectToCase(run *ev.Run, cs ctCase) {
 	close(start)
 	wg.Wait()
 	// pass-through of an unmapped address
-	var got string
-	_, _ = dial(context.WithValue(context.Background(), ctSlotKey{}, &got), "tcp", "192.0.2.77:4242")
-	if got != "192.0.2.77:4242" {
-		viol("unmapped-address-changed", "connect-to", fmt.Sprintf("dial to unmapped 192.0.2.77:4242 went to %v", got), nil)
+	unmapped := []string{"192.0.2.77:4242", "[2001:db8::a]:8080", "192.0.2.77:0"}
+	if !cs.WithDNS { // with DNS caching underneath, a name would be looked up first and an IP literal re-formatted
+		unmapped = append(unmapped, "[2001:DB8::A]:8080", "[fe80::1%lo]:80", "Other.Example:80", "UPPER.EXAMPLE.:443", "mIxEd-Case.test:65535", "localhost:http")
+	}
+	for _, u := range unmapped {
+		if _, mapped := cs.Map[u]; mapped {
+			continue
+		}
+		var got string
+		_, _ = dial(context.WithValue(context.Background(), ctSlotKey{}, &got), "tcp", u)
+		run.Count("connect_to_unmapped_dials", 1)
+		if got != u {
+			viol("unmapped-address-changed", "connect-to", fmt.Sprintf("dial to the unmapped address %q went to %q", u, got), nil)
+			break
+		}
 	}
 	bySrc := map[string][]ctOp{}
 	total := 0
